@@ -180,6 +180,46 @@ def state_reads(ctx, rep, cfgs=None):
         rep.instances(n, 20, 'read sites examined')
 
 
+# which injected functions each public operation may reach (the abstract model of C13 / C18: an operation consults the clock, the CSPRNG, the allocator, the
+# KDF and the normalisers only where its specification says so; dep:memzero is allowed wherever temporaries exist)
+API_DEPS = {
+    'polyseed_create': {'alloc', 'free', 'randbytes', 'time', 'memzero'},
+    'polyseed_decode': {'alloc', 'free', 'u8_nfkd', 'memzero'},
+    'polyseed_decode_explicit': {'alloc', 'free', 'u8_nfkd', 'memzero'},
+    'polyseed_load': {'alloc', 'free', 'memzero'},
+    'polyseed_encode': {'u8_nfc', 'memzero'},
+    'polyseed_store': {'memzero'},
+    'polyseed_keygen': {'pbkdf2_sha256', 'memzero'},
+    'polyseed_crypt': {'u8_nfkd', 'pbkdf2_sha256', 'memzero'},
+    'polyseed_free': {'free', 'memzero'},
+    'polyseed_get_birthday': set(), 'polyseed_get_feature': set(), 'polyseed_is_encrypted': set(),
+    'polyseed_get_num_langs': set(), 'polyseed_get_lang': set(), 'polyseed_get_lang_name': set(), 'polyseed_get_lang_name_en': set(),
+    'polyseed_enable_features': set(),
+}
+
+
+def api_deps(ctx, rep, cfgs=None):
+    """CALL-4: which injected functions each public operation can reach"""
+    for cfg in cfgs or ['NsS']:
+        P = ctx.prog(cfg)
+        if cfg not in rep.configs: rep.configs.append(cfg)
+        rep.rule('CALL-4', 'per public operation, the injected functions reachable through the call graph (indirect calls and dependency wrappers resolved) are within what its '
+                 'specification allows: the getters and the language queries reach none (pure functions of their arguments - in particular no clock), keygen reaches only the KDF, '
+                 'encode only u8_nfc, store nothing, crypt u8_nfkd + KDF, load / decode the allocator (+ u8_nfkd for decode), create allocator + CSPRNG + clock; dep:memzero is '
+                 'allowed wherever a function has temporaries')
+        n = 0
+        for name, allowed in sorted(API_DEPS.items()):
+            if name not in P.defined: raise AnalysisBroken('public function %s not found' % name)
+            f = P.defined[name]
+            got = {x[4:] for x in P.reachable_from([name]) if x.startswith('dep:')}
+            extra = sorted(got - allowed)
+            n += 1
+            rep.check(not extra, '%s reaches only %s' % (name, sorted(allowed) or 'no injected function'), '%s:%s' % ((f.file or '').replace('/repo/', ''), f.line),
+                      '%s can call dep:%s' % (name, ', dep:'.join(extra)), detail={'reaches': sorted(got), 'allowed': sorted(allowed)}, sample={'function': name, 'reaches': sorted(got)},
+                      key='CALL-4|%s' % name)
+        rep.instances(n, 10, 'public operations')
+
+
 def visibility(ctx, rep):
     """FRAME-6: the library's mutable state is its own also in the shared-library build"""
     cfg = 'NsH'
